@@ -256,11 +256,17 @@ fn const_j<'tcx>(tcx: TyCtxt<'tcx>, c: &mir::ConstOperand<'tcx>) -> J {
         v.push(("fn", s(def_path(tcx, *did))));
         v.push(("fn_args", s(format!("{:?}", args))));
     }
+    if let Const::Unevaluated(uv, _) = c.const_ {
+        if let Some(pr) = uv.promoted {
+            v.push(("promoted", J::I(pr.index() as i128)));
+        }
+    }
     // scalar value
     let env = TypingEnv::fully_monomorphized();
     let scalar = match c.const_ {
         Const::Val(mir::ConstValue::Scalar(sc), _) => Some(sc),
         Const::Val(..) => None,
+        Const::Unevaluated(uv, _) if uv.promoted.is_some() => None,
         _ => c.const_.try_eval_scalar(tcx, env),
     };
     if let Some(mir::interpret::Scalar::Int(si)) = scalar {
@@ -718,6 +724,21 @@ fn extract<'tcx>(tcx: TyCtxt<'tcx>, krate: &str, kind: &str) -> J {
             .map(|(i, bb)| block_j(tcx, did, body, i.index(), bb))
             .collect();
         v.push(("blocks", J::A(blocks)));
+        let mut proms = Vec::new();
+        for (pi, pb) in tcx.promoted_mir(did).iter_enumerated() {
+            let plocals: Vec<J> = pb
+                .local_decls
+                .iter_enumerated()
+                .map(|(l, d)| o(vec![("i", J::I(l.index() as i128)), ("ty", s(ty_s(d.ty))), ("name", J::Null)]))
+                .collect();
+            let pblocks: Vec<J> = pb
+                .basic_blocks
+                .iter_enumerated()
+                .map(|(i, bb)| block_j(tcx, did, pb, i.index(), bb))
+                .collect();
+            proms.push(o(vec![("i", J::I(pi.index() as i128)), ("locals", J::A(plocals)), ("blocks", J::A(pblocks))]));
+        }
+        v.push(("promoted", J::A(proms)));
         // statics referenced from this body (through constants pointing to static allocations)
         for c in body.required_consts() {
             let _ = c;
